@@ -75,6 +75,7 @@ type Result struct {
 	Restarts    int               `json:"solver_restarts"`
 	SolverErrs  int               `json:"solver_errors"`
 	Reached     map[string]int    `json:"reached"`
+	Digests     map[string]string `json:"digests,omitempty"`
 	OverApprox  map[string]int    `json:"overapprox"`
 	Groups      []Group           `json:"groups"`
 	KnownHits   map[string]int    `json:"known_hits"`
@@ -241,6 +242,12 @@ func run(job *Job) *Result {
 		findings = append(findings, w.Findings...)
 		for k, v := range w.Reached {
 			res.Reached[k] += v
+		}
+		for k, v := range w.Digests {
+			if res.Digests == nil {
+				res.Digests = map[string]string{}
+			}
+			res.Digests[k] = v
 		}
 		for k, v := range w.OverApprox {
 			res.OverApprox[k] += v
